@@ -312,7 +312,7 @@ def run(ctx):
                     if okm:
                         rhs = ex_
                 ctx.check(okm, "metric:kill_by_pressure:mean-of-10s-and-60s", "value-shape", l.loc(w),
-                          "key = sec_10/2 + sec_60/2", "key = " + rhs)
+                          "key = sec_10/2 + sec_60/2", "key = " + rhs + ("" if okm else " (expanded: %s)" % Expander(P, l)(rhs_n).replace("->->", "->")[:160]))
                 where_ = ""
                 if src is None:
                     # what the pressure local holds, so that a helper standing between the switch and the mean is named in the finding
